@@ -252,6 +252,7 @@ static void exec_pair(void)
 int main(int argc, char **argv)
 {
   mc_args(argc, argv);
+  obs_lenient = 1;      /* C04 is about memory safety and termination on arbitrary bytes, not about listing/getter agreement */
   mode = (int)mc_opt.param[0]; n1 = (int)mc_opt.param[1]; n2 = (int)mc_opt.param[2];
   build_lines();
   snprintf(dirpath, sizeof dirpath, "%s/d", mc_work); mkdir(dirpath, 0755);
